@@ -209,6 +209,7 @@ REVERTS = [
     ("F16", "fix: a matrix without dimensions signs", ["C02"]),
     ("F17", "fix: an adjustment that names no dimension", ["C02", "C09"]),
     ("F19", "fix: a matrix dimension declared without values", ["C02"]),
+    ("F20", "fix: fields of an embedded inline struct are filled once", ["C16"]),
 ]
 
 
